@@ -243,7 +243,30 @@ func c15LenientMutate(r *Rng, root **c15Node) string {
 		}
 		return l[r.Intn(len(l))], true
 	}
-	switch op := r.Intn(13); op {
+	switch op := r.Intn(14); op {
+	case 13: // a present-but-empty log trigger extension ({} or explicit zeros), also where none belongs
+		var exts []ref
+		for _, x := range all {
+			if x.s.parent != nil && x.s.parent.kind == 'o' && x.s.key == "LogTriggerExtension" {
+				exts = append(exts, x)
+			}
+		}
+		if e, ok := pick(exts); ok {
+			n := &c15Node{kind: 'o'}
+			switch r.Intn(3) {
+			case 1:
+				n.keys, n.vals = []string{"Index"}, []*c15Node{{kind: 'n', num: "0"}}
+			case 2:
+				n.keys = []string{"TxHash", "Index", "BlockHash", "BlockNumber"}
+				n.vals = []*c15Node{{kind: 'a'}, {kind: 'n', num: "0"}, {kind: 'z'}, {kind: 'n', num: "0"}}
+			}
+			was := "object"
+			if e.n.kind == 'z' {
+				was = "null"
+			}
+			c15Set(root, e.s, n)
+			return "zero-ext:" + was
+		}
 	case 12: // a short byte array decoded after its sibling fields (reorder + short-array in one step)
 		var cands []ref
 		for _, o := range objs {
@@ -518,7 +541,13 @@ func c15MutateBytes(r *Rng, b, other []byte) ([]byte, string) {
 	if len(b) == 0 {
 		return []byte("{"), "seed-empty"
 	}
-	switch op := r.Intn(14); op {
+	switch op := r.Intn(15); op {
+	case 14: // an empty object where the optional extension is null
+		if i := bytes.Index(b, []byte(`"LogTriggerExtension":null`)); i >= 0 {
+			all := c15IndexAll(b, `"LogTriggerExtension":null`)
+			k := all[r.Intn(len(all))]
+			return c15Splice(b, k, k+len(`"LogTriggerExtension":null`), `"LogTriggerExtension":{}`), "zero-ext"
+		}
 	case 0:
 		out := append([]byte(nil), b...)
 		for k := r.Range(1, 3); k > 0; k-- {
@@ -613,6 +642,18 @@ func c15MutateBytes(r *Rng, b, other []byte) ([]byte, string) {
 	out := append([]byte(nil), b...)
 	out[r.Intn(len(out))] ^= 0x20
 	return out, "bitflip"
+}
+
+func c15IndexAll(b []byte, sub string) []int {
+	var out []int
+	for off := 0; ; {
+		i := bytes.Index(b[off:], []byte(sub))
+		if i < 0 {
+			return out
+		}
+		out = append(out, off+i)
+		off += i + len(sub)
+	}
 }
 
 func c15Indexes(b []byte, c byte) []int {
@@ -771,6 +812,51 @@ func c15Edge() []c15Input {
 	out = append(out, c15Input{Kind: "outcome", Mode: "lenient", Note: "edge:zero-fill",
 		Raw: []byte(`{"SurfacedProposals":[[{"Trigger":{"BlockNumber":72057594037927935},"UpkeepID":[]}]]}`)})
 	out = append(out, c15Input{Kind: "obs", Mode: "gcstress", Note: "edge:zero-fill"}, c15Input{Kind: "outcome", Mode: "gcstress", Note: "edge:zero-fill"})
+
+	// state across calls: concurrent encoders
+	out = append(out, c15Input{Kind: "obs", Mode: "encstress", Note: "edge:concurrent-encode"}, c15Input{Kind: "outcome", Mode: "encstress", Note: "edge:concurrent-encode"})
+
+	// one log upkeep several times in one message (different logs, hence different work ids):
+	// twice performable, performable and proposed, proposed in two rounds
+	{
+		uid := c15UID(r, 1)
+		mkT := func() ocr2keepers.Trigger { return c15TriggerP(r, uid, true) }
+		res := func() ocr2keepers.CheckResult {
+			x := c15Result(r, 1)
+			x.UpkeepID, x.Trigger = uid, mkT()
+			x.WorkID = wg(uid, x.Trigger)
+			return x
+		}
+		prop := func() ocr2keepers.CoordinatedBlockProposal {
+			t := mkT()
+			return ocr2keepers.CoordinatedBlockProposal{UpkeepID: uid, Trigger: t, WorkID: wg(uid, t)}
+		}
+		out = append(out, c15Input{Kind: "obs", Mode: "valid", Note: "edge:repeated-log-upkeep", Obs: c15ObsToJ(ocr2keepersv3.AutomationObservation{
+			Performable: []ocr2keepers.CheckResult{res(), res()}, UpkeepProposals: []ocr2keepers.CoordinatedBlockProposal{prop(), prop()}})})
+		out = append(out, c15Input{Kind: "outcome", Mode: "valid", Note: "edge:repeated-log-upkeep", Outcome: c15OutcomeToJ(ocr2keepersv3.AutomationOutcome{
+			AgreedPerformables: []ocr2keepers.CheckResult{res(), res()},
+			SurfacedProposals:  [][]ocr2keepers.CoordinatedBlockProposal{{prop()}, {}, {prop(), prop()}}})})
+		// … and the work id of one log on a proposal for another log of that upkeep
+		sib := res()
+		out = append(out, c15Input{Kind: "outcome", Mode: "violate", Rule: "wrongWorkIDProposal", Note: "edge:sibling-work-id", Outcome: c15OutcomeToJ(ocr2keepersv3.AutomationOutcome{
+			AgreedPerformables: []ocr2keepers.CheckResult{sib}, SurfacedProposals: [][]ocr2keepers.CoordinatedBlockProposal{{c15SiblingProposal(r, sib)}}})})
+		out = append(out, c15Input{Kind: "obs", Mode: "violate", Rule: "wrongWorkIDProposal", Note: "edge:sibling-work-id", Obs: c15ObsToJ(ocr2keepersv3.AutomationObservation{
+			Performable: []ocr2keepers.CheckResult{sib}, UpkeepProposals: []ocr2keepers.CoordinatedBlockProposal{c15SiblingProposal(r, sib)}})})
+	}
+	// a present-but-all-zero extension: fine on a log upkeep, a type mismatch on a condition upkeep
+	{
+		zl := c15Result(r, 1)
+		zl.Trigger.LogTriggerExtension = &ocr2keepers.LogTriggerExtension{}
+		zl.WorkID = wg(zl.UpkeepID, zl.Trigger)
+		out = append(out, c15Input{Kind: "obs", Mode: "valid", Note: "edge:zero-ext", Obs: c15ObsToJ(ocr2keepersv3.AutomationObservation{
+			Performable: []ocr2keepers.CheckResult{zl}, UpkeepProposals: []ocr2keepers.CoordinatedBlockProposal{{UpkeepID: zl.UpkeepID, Trigger: zl.Trigger, WorkID: zl.WorkID}}})})
+		zc := c15Result(r, 0)
+		zc.Trigger.LogTriggerExtension = &ocr2keepers.LogTriggerExtension{}
+		zc.WorkID = wg(zc.UpkeepID, zc.Trigger)
+		out = append(out, c15Input{Kind: "obs", Mode: "violate", Rule: "typeMismatchResult", Note: "edge:zero-ext", Obs: c15ObsToJ(ocr2keepersv3.AutomationObservation{Performable: []ocr2keepers.CheckResult{zc}})})
+		out = append(out, c15Input{Kind: "outcome", Mode: "violate", Rule: "typeMismatchProposal", Note: "edge:zero-ext", Outcome: c15OutcomeToJ(ocr2keepersv3.AutomationOutcome{
+			SurfacedProposals: [][]ocr2keepers.CoordinatedBlockProposal{{{UpkeepID: zc.UpkeepID, Trigger: zc.Trigger, WorkID: zc.WorkID}}}})})
+	}
 
 	// arbitrary bytes: the nasty ones first
 	deep := func(n int) []string {
